@@ -1,4 +1,4 @@
-"""C18 - a request never outlives its timeout  (partial; KNOWN FINDING for the sync client).
+"""C18 - a request never outlives its timeout  (partial: logical clock).
 
 Proof: Properties/C18.v over the logical-clock model Model/Timing.v.  Correspondence / oracle: wall-clock runs of
 the real clients: timeout T, schedules of k stray (well-formed, non-matching) datagrams spaced 0.4 T apart,
